@@ -489,6 +489,22 @@ func c16History(rep *Report, m *model.Client, cfg engine.Config, ops []engine.Op
 	both2 := dcase{name: "flip/both", mut: func(b []byte) { b[40] ^= 4; b[ps+33] ^= 16 }}
 	both2.dam = [2]bool{true, true}
 	cases = append(cases, both2)
+	// both header pages destroyed, but a page of user data at a power-of-two offset holds a well-formed header image
+	// whose page size field equals that offset (a copy of a header kept by the application, a file stored inside the
+	// file): there is no intact header, Open has to fail
+	if len(img) >= 3*ps && ps&(ps-1) == 0 {
+		fake := dcase{name: "userdata/header-image-at-a-page-size-offset", mut: func(b []byte) {
+			h := append([]byte(nil), b[newest*ps:newest*ps+84]...)
+			binary.LittleEndian.PutUint32(h[8:], uint32(2*ps))
+			binary.LittleEndian.PutUint32(h[80:], txfile.VerifChecksum(h))
+			copy(b[2*ps:], h)
+			for i := 0; i < 2*ps; i++ {
+				b[i] = 0
+			}
+		}}
+		fake.dam = [2]bool{true, true}
+		cases = append(cases, fake)
+	}
 
 	for _, dc := range cases {
 		if onlyDamage != "" && dc.name != onlyDamage {
@@ -565,6 +581,10 @@ func c16History(rep *Report, m *model.Client, cfg engine.Config, ops []engine.Op
 		if !ok && expect == "state" && (outcome == "wrong-state" || outcome == "error") && want.Txid != e.Committed.Txid && laterWrites {
 			rep.violate(Violation{Kind: "oracle", Sig: "fallback-to-older-header-after-later-writes",
 				Detail: fmt.Sprintf("%s on %s: the intact older header is selected, but pages of its state were reused by a transaction begun after the newest commit: %s", dc.name, cfg, actual),
+				Replay: c16Replay{Config: cfg, Ops: ops, HistSeed: hseed, Damage: dc.name, Expect: expect, Actual: actual}})
+		} else if !ok && kind == "userdata" {
+			rep.violate(Violation{Kind: "oracle", Sig: "both-headers-destroyed/header-image-in-user-data-adopted",
+				Detail: fmt.Sprintf("%s on %s: both header pages are destroyed; Open adopts a header image found in a page of user data (page 2, page size field = its offset) instead of failing: %s", dc.name, cfg, actual),
 				Replay: c16Replay{Config: cfg, Ops: ops, HistSeed: hseed, Damage: dc.name, Expect: expect, Actual: actual}})
 		} else if !ok {
 			rep.violate(Violation{Kind: "oracle", Sig: fmt.Sprintf("open-after-damage/%s/expect-%s/got-%s", kind, expect, outcome),
